@@ -10,6 +10,8 @@ import (
 	"path/filepath"
 	"strings"
 	"sync"
+	"sync/atomic"
+	"syscall"
 	"time"
 
 	"github.com/maruel/panicparse/v2/stack"
@@ -233,7 +235,11 @@ type e2eCase struct {
 	// (prefix = exact prefix of stdout; suffix = stdout ends with it, "" = nothing new required).
 	Prefix []gen.BinStr `json:"prefix"`
 	Suffix []gen.BinStr `json:"suffix"`
+	// Fifo: pp gets the stream through a named pipe given as its file argument (pp <(prog 2>&1)) instead of stdin.
+	Fifo bool `json:"fifo,omitempty"`
 }
+
+var fifoSeq atomic.Int64
 
 type outBuf struct {
 	mu sync.Mutex
@@ -254,12 +260,26 @@ func (o *outBuf) snapshot() []byte {
 }
 
 func e2eEval(r *core.Run, c *e2eCase) {
-	cmd := exec.Command(filepath.Join(os.Getenv("VERIF_BIN"), "pp"), "-rebase=false")
+	args := []string{"-rebase=false"}
+	fifo := ""
+	if c.Fifo {
+		fifo = filepath.Join(os.Getenv("VERIF_WORK"), fmt.Sprintf("fifo-%d", fifoSeq.Add(1)))
+		if err := syscall.Mkfifo(fifo, 0o600); err != nil {
+			r.Broken("mkfifo: " + err.Error())
+			return
+		}
+		defer os.Remove(fifo)
+		args = append(args, fifo)
+	}
+	cmd := exec.Command(filepath.Join(os.Getenv("VERIF_BIN"), "pp"), args...)
 	cmd.Env = []string{"GOTRACEBACK=all", "TERM=dumb", "PATH=" + os.Getenv("PATH"), "HOME=" + os.Getenv("VERIF_WORK"), "GOCOVERDIR=" + os.Getenv("GOCOVERDIR")}
-	stdin, err := cmd.StdinPipe()
-	if err != nil {
-		r.Broken(err.Error())
-		return
+	var stdin io.WriteCloser
+	var err error
+	if !c.Fifo {
+		if stdin, err = cmd.StdinPipe(); err != nil {
+			r.Broken(err.Error())
+			return
+		}
 	}
 	out := &outBuf{}
 	cmd.Stdout = out
@@ -268,6 +288,18 @@ func e2eEval(r *core.Run, c *e2eCase) {
 	if err := cmd.Start(); err != nil {
 		r.Broken("cannot start pp: " + err.Error())
 		return
+	}
+	if c.Fifo {
+		// opening the write end blocks until pp has opened the read end
+		w, err := os.OpenFile(fifo, os.O_WRONLY, 0)
+		if err != nil {
+			_ = cmd.Process.Kill()
+			_ = cmd.Wait()
+			r.Broken("cannot open the fifo for writing: " + err.Error())
+			return
+		}
+		stdin = w
+		r.Count("e2e_fifo_sessions", 1)
 	}
 	r.Eval(1)
 	satisfied := func(i int) bool {
@@ -407,6 +439,7 @@ func runC11(r *core.Run) {
 	ne := r.N(24, 400)
 	core.Parallel(ne, 8, func(i int) {
 		c := genE2E(r, i)
+		c.Fifo = i%4 == 3
 		e2eEval(r, c)
 		b, _ := json.Marshal(c)
 		r.Distinct(core.Hash64(b))
